@@ -211,8 +211,8 @@ impl Table {
         buffer.push_untyped_cols(columns);
     }
 
-    /// Creates a new partition from current buffer and returns it.
-    pub(crate) fn batch(&self) -> Option<Arc<Partition>> {
+    /// Creates a new partition from current buffer and returns it together with its columns.
+    pub(crate) fn batch(&self) -> Option<(Arc<Partition>, Vec<Arc<Column>>)> {
         let mut buffer = self.frozen_buffer.lock().unwrap();
         if buffer.len() == 0 {
             return None;
@@ -229,6 +229,13 @@ impl Table {
             self.lru.clone(),
             partition_offset,
         );
+        // Collect the columns before the partition becomes visible: from then on queries may add
+        // placeholder handles for columns it does not have and the cache may evict column data.
+        let columns = new_partition
+            .clone_column_handles()
+            .into_iter()
+            .map(|c| c.try_get().as_ref().unwrap().clone())
+            .collect();
         let arc_partition;
         {
             let mut partitions = self.partitions.write().unwrap();
@@ -238,7 +245,7 @@ impl Table {
         for (id, column) in keys {
             self.lru.put(ColumnLocator::new(self.name(), id, &column));
         }
-        Some(arc_partition)
+        Some((arc_partition, columns))
     }
 
     /// Determines if partitions should be compacted. If so, returns the maximal list of partitions to compact.
